@@ -1944,10 +1944,14 @@ where
         if !node.order.is_empty() {
             slice = self.read.slice_unchecked(start, self.read.index());
             let lv = LazyValue::new(slice.into(), status.into());
+            // a duplicated member name reaches the same node again: the first occurrence wins,
+            // as for `get`, and a slot is only counted once
             for p in &node.order {
-                out[*p] = Some(lv.clone());
+                if out[*p].is_none() {
+                    out[*p] = Some(lv.clone());
+                    *remain -= 1;
+                }
             }
-            *remain -= node.order.len();
         }
         Ok(())
     }
